@@ -149,6 +149,19 @@ def r01_3(ctx, A):
         if f.callee_decl(t) in (SM.IO_WRITE_ALL, 'std::io::Write::write') or (callee in lib.fns and not (lib.fns[callee].impl and adt_base(lib.fns[callee].impl['self_ty']) == A.builder) and SM.IO_WRITE_ALL in cg.reachable([callee])):
             extra.append((callee or f.callee_decl(t), t.get('span')))
     ctx.check(R, not extra, 'compiler-emits-nodes-only', 'the node compiler writes bytes of its own besides the encoded node (%s): the node extents no longer tile the body of the file' % [e[0].rsplit('::', 1)[-1] for e in extra], fn=f, at=extra[0][1] if extra else None)
+    # `last_addr` is the address of the node written last; it decides whether the next node may use the compact "next" form.  Only the
+    # constructor and the node compiler set it: any other writer makes the bytes depend on the path by which the keys arrived
+    for m in A.builder_methods():
+        if m.path == f.path or m.from_expansion:
+            continue
+        is_ctor = any(isinstance(st['rv'].get('agg'), dict) and st['rv']['agg'].get('adt') == A.builder for b_ in m.normal_blocks() for st in b_['stmts'] if st['k'] == 'assign')
+        if is_ctor:
+            continue
+        for p in explore(m, max_visits=1, havoc=True, limit=300):
+            w = [loc for (k, i, loc, st) in p.stores() if loc == (1, 'last_addr')]
+            if w:
+                ctx.violation(R, 'last_addr-writer:' + m.path, '%s assigns last_addr although it is neither the constructor nor the node compiler: the choice between the compact and the long node form then depends on how the keys were fed (insert / extend_iter / extend_stream), not on the keys' % m.path.rsplit('::', 1)[-1], fn=m)
+                break
     # who emits through the builder's writer
     emitters = []
     for m in A.builder_methods():
